@@ -253,7 +253,7 @@ namespace detail
 		GLM_STATIC_ASSERT(std::numeric_limits<genIType>::is_integer, "'bitfieldRotateRight' accepts only integer values");
 
 		int const BitSize = static_cast<genIType>(sizeof(genIType) * 8);
-		return (In << static_cast<genIType>(Shift)) | (In >> static_cast<genIType>(BitSize - Shift));
+		return (In << static_cast<genIType>(Shift)) | (In >> static_cast<genIType>((BitSize - Shift) & (BitSize - 1)));
 	}
 
 	template<length_t L, typename T, qualifier Q>
@@ -262,7 +262,7 @@ namespace detail
 		GLM_STATIC_ASSERT(std::numeric_limits<T>::is_integer, "'bitfieldRotateRight' accepts only integer values");
 
 		int const BitSize = static_cast<int>(sizeof(T) * 8);
-		return (In << static_cast<T>(Shift)) | (In >> static_cast<T>(BitSize - Shift));
+		return (In << static_cast<T>(Shift)) | (In >> static_cast<T>((BitSize - Shift) & (BitSize - 1)));
 	}
 
 	template<typename genIType>
@@ -271,7 +271,7 @@ namespace detail
 		GLM_STATIC_ASSERT(std::numeric_limits<genIType>::is_integer, "'bitfieldRotateLeft' accepts only integer values");
 
 		int const BitSize = static_cast<genIType>(sizeof(genIType) * 8);
-		return (In >> static_cast<genIType>(Shift)) | (In << static_cast<genIType>(BitSize - Shift));
+		return (In >> static_cast<genIType>(Shift)) | (In << static_cast<genIType>((BitSize - Shift) & (BitSize - 1)));
 	}
 
 	template<length_t L, typename T, qualifier Q>
@@ -280,7 +280,7 @@ namespace detail
 		GLM_STATIC_ASSERT(std::numeric_limits<T>::is_integer, "'bitfieldRotateLeft' accepts only integer values");
 
 		int const BitSize = static_cast<int>(sizeof(T) * 8);
-		return (In >> static_cast<T>(Shift)) | (In << static_cast<T>(BitSize - Shift));
+		return (In >> static_cast<T>(Shift)) | (In << static_cast<T>((BitSize - Shift) & (BitSize - 1)));
 	}
 
 	template<typename genIUType>
